@@ -23,7 +23,7 @@ CHECKS = {
 }
 
 CHECKS["C20"] = ("exploration",
-    "differential testing of the handle database against a refcount model with a destructor ledger (ASan)",
+    "differential testing of the handle database against a refcount model with a destructor ledger (ASan), with an allocation failpoint (--wrap=malloc,calloc) for creates that fail",
     "Each op's result on live, released, pending-removal, forged and no-check handles is compared with a "
     "refcount model; the destructor ledger checks exactly-once and the moment (the call that drops the count to "
     "zero); iteration must visit exactly the not-destroyed objects.",
@@ -38,7 +38,7 @@ CHECKS["C19"] = ("exploration",
     "trusts TSan/ASan runtimes; OS scheduling on 16 cores", "DESIGN.md C19")
 
 CHECKS["C17"] = ("exploration",
-    "differential testing of hashtable/skiplist/trie against a dictionary + notifier-registry model (ASan)",
+    "differential testing of hashtable/skiplist/trie against a dictionary + notifier-registry model (ASan); key storage the map must no longer use is scribbled over",
     "Every op result (get, rm, count, complete/prefix iteration incl. order) and the multiset of notifier "
     "invocations of every op (event, key, old, new, user data; FREE exactly once per value incl. destroy) is "
     "compared with a model, over adversarial key pools, for each implementation.",
@@ -86,7 +86,8 @@ CHECKS["C12"] = ("exploration",
 
 CHECKS["C16"] = ("exploration",
     "sequence-numbered messages through threaded custom targets under ThreadSanitizer and ASan; offline "
-    "order / exactly-once / drop-accounting / fini-drain oracle over the recorded logger invocations",
+    "order / exactly-once / drop-accounting / fini-drain oracle over the recorded logger invocations; competing busy "
+    "threads in a third of the cases, a fini-race stage, refused control operations, a watchdog thread for stuck cases",
     "All legal orders of init, set-threaded, thread-start, control, fini and re-init are generated; the loggers "
     "record (target, sequence); after qb_log_fini the history must be strictly increasing per target, missing "
     "messages must equal the sum of 'N messages lost' reports, and nothing may arrive after fini returned. TSan "
@@ -107,7 +108,8 @@ CHECKS["C15"] = ("exploration",
 
 CHECKS["C08"] = ("exploration",
     "registration-ledger monitor on the real event loop under a virtual clock with wrapped epoll_wait; user data "
-    "blocks freed as soon as no callback may follow (ASan turns a late callback into a use-after-free)",
+    "blocks freed as soon as no callback may follow (ASan turns a late callback into a use-after-free); duplicate adds, "
+    "job_del naming a timer, signal priority changes, descriptors re-added inside retiring callbacks",
     "Random add/modify/delete programs on jobs, timers, descriptors and signals, issued from outside and from "
     "inside callbacks, are checked online by a ledger: exactly-once, nothing after a successful delete (also for "
     "items already queued for dispatch), stale timer handles rejected, job FIFO per priority, signal counts, "
@@ -123,8 +125,8 @@ CHECKS["C09"] = ("exploration",
     "clock_gettime/clock_getres/usleep/epoll_wait wrapped at link time; callbacks take no virtual time",
     "DESIGN.md C09")
 CHECKS["C10"] = ("exploration",
-    "dispatch-per-iteration trace oracle (3-iteration service window, ratio ordering) over generated saturating "
-    "workloads",
+    "dispatch-per-iteration trace oracle (3-iteration service window per level, waiting-time bound per item, ratio "
+    "ordering) over generated saturating workloads",
     "Self-re-adding jobs, zero-delay timers and never-drained descriptors at the three priorities in random "
     "proportions run for 300-1200 iterations; every backlogged level must dispatch in every window of three "
     "iterations and higher levels must not be served in fewer iterations than lower ones.",
